@@ -220,7 +220,44 @@ theorem procedure_agrees (base svc m : Bytes) (hs : noSlash svc) (hm : noSlash m
     simp [extractProtoPath, hpre, lastTwo_append, hsne, hmne, slash]
   exact ⟨key base, by simpa using key []⟩
 
+/-! ### a Connect call is served as a Connect call -/
+
+/-- **connect_first**: whatever the codec names are - including names that make a Connect
+    content type coincide with one of gRPC or gRPC-Web ("grpc", "grpc-web+proto", ...) - a POST whose
+    Content-Type is the Connect type of a registered codec `n` is handed to the Connect protocol
+    handler with codec `n`: the call the client made runs, once, as the call it made. -/
+theorem connect_first (cfg : HandlerCfg) (major : Nat) (n : Bytes) (hn : n ∈ cfg.codecs)
+    (hv : ¬ (cfg.kind = .bidi ∧ major < 2)) :
+    dispatch cfg major methodPost
+      ((if cfg.kind = .unary then Gen.connectUnaryContentTypePrefix else Gen.connectStreamingContentTypePrefix) ++ n)
+      = .serve .connect n := by
+  have hmem : ((if cfg.kind = .unary then Gen.connectUnaryContentTypePrefix else Gen.connectStreamingContentTypePrefix) ++ n)
+      ∈ connectTypes cfg := by
+    simp only [connectTypes, List.mem_map]
+    exact ⟨n, hn, rfl⟩
+  have hsel : selectProtocol (protocolHandlers cfg)
+      ((if cfg.kind = .unary then Gen.connectUnaryContentTypePrefix else Gen.connectStreamingContentTypePrefix) ++ n)
+      = some .connect := by
+    simp [protocolHandlers, selectProtocol, hmem]
+  simp only [dispatch, hv, if_false, hsel, ne_eq, not_true_eq_false]
+  simp [codecNameFor, trimPrefix_append]
+
+/-- **selectProtocol_first**: the selection is the *first* protocol handler that serves the type. -/
+theorem selectProtocol_first (pre post : List (Proto × List Bytes)) (p : Proto) (types : List Bytes) (ct : Bytes)
+    (hpre : ∀ q ∈ pre, ct ∉ q.2) (hct : ct ∈ types) :
+    selectProtocol (pre ++ (p, types) :: post) ct = some p := by
+  induction pre with
+  | nil => simp [selectProtocol, hct]
+  | cons x t ih =>
+    obtain ⟨q, ty⟩ := x
+    have hx : ct ∉ ty := hpre (q, ty) (by simp)
+    simp only [List.cons_append, selectProtocol, hx, if_false]
+    exact ih (fun r hr => hpre r (List.mem_cons_of_mem _ hr))
+
 /-! non-vacuity -/
+-- a codec named "grpc" on a unary handler: "application/grpc" is served by Connect with that codec
+example : dispatch { kind := .unary, codecs := [Gen.codecNameProto, [103, 114, 112, 99]], handleGRPC := true, handleGRPCWeb := true } 2
+    methodPost Gen.grpcContentTypeDefault = .serve .connect [103, 114, 112, 99] := by decide
 example : dispatch { kind := .bidi, codecs := [Gen.codecNameProto], handleGRPC := true, handleGRPCWeb := true } 1
     methodPost Gen.grpcContentTypeDefault = .httpVersionNotSupported := by decide
 example : dispatch { kind := .unary, codecs := [Gen.codecNameProto, Gen.codecNameJSON], handleGRPC := true, handleGRPCWeb := false } 1
